@@ -215,9 +215,14 @@ def scan(ctx):
     # the four running quantities of the scan are the locals passed to the split test
     names = []
     for a_ in ce[0].args:
-        ns = [n for n in _lv_names(a_)]
-        names.append(ns[0] if ns else None)
-    if not ctx.anchor("ADWIN._shrink_window", "the scan's running sizes and totals are local variables", None not in names and len(set(names)) == 4):
+        # the running quantity itself: a loop variable that occurs as a plain summand (not inside a subscript)
+        ns = sorted({m_[0][0][2][1:] for m_, cf in a_.num if len(m_) == 1 and m_[0][1] == 1 and m_[0][0][0] == "loopvar" and m_[0][0][2].startswith("$") and cf == 1})
+        names.append(ns[0] if len(ns) == 1 else None)
+    if None in names or len(set(names)) != 4:
+        roles = ("size of the older part", "total of the older part", "size of the newer part", "total of the newer part")
+        for nm, role in zip(names, roles):
+            ctx.ob("PAIR", "ADWIN._shrink_window", "the %s is a running quantity of the scan" % role, nm is not None,
+                   "the value passed to the split test is not updated bucket by bucket: what is added to the older part must be taken from the newer part", ce[0])
         return
     N0, T0, N1, T1 = names
     loc = [e for e in tr.of("local") if e.func.qualname == "ADWIN._shrink_window" and e.aug is not None]
@@ -283,7 +288,7 @@ def bounded(ctx):
     ctx.ob("FRM", "_BucketRow.add_bucket", "bucket_count grows by one", ta.final.attrs.get("bucket_count") is not None and T.same(ta.final.attrs["bucket_count"], A("bucket_count") + const(1)), "")
     # compression trigger equals the capacity
     tc = ctx.trace("ADWIN", "_compress_buckets")
-    trig = [e for e in tc.of("test") if T.mentions(e.cond, lambda a: a[0] == "getattr" and a[2] == "bucket_count") and q.is_cmp(e.cond) and q.is_cmp(e.cond)[1] == "=="]
+    trig = [e for e in tc.of("test") if T.mentions(e.cond, lambda a: a[0] == "getattr" and a[2] == "bucket_count") and q.is_cmp(e.cond) and q.is_cmp(e.cond)[1] in ("==", "!=")]
     ok = len(trig) >= 1 and all(T.same(_rhs_eq(e.cond, "bucket_count"), A("max_buckets") + const(1)) for e in trig)
     ctx.ob("AGREE", "ADWIN._compress_buckets", "a row is compressed exactly when it holds max_buckets + 1 buckets (= capacity)", ok,
            "capacity expression and trigger expression must agree, otherwise add_bucket can write past the arrays")
@@ -366,7 +371,8 @@ def linked_list(ctx):
     ok = fin.get("bucket_count") is not None and T.same(fin["bucket_count"], A("bucket_count") - P("num_buckets"))
     ctx.ob("FRM", "_BucketRow.remove_buckets", "bucket_count decreases by the number removed", ok, "")
     sh = Evaluator(prog, row).run(prog.lookup(row, "shift"))
-    muts = [e for e in sh.of("localmut") if e.name == "result"]
+    root = q.unmut(sh.retval) if sh.retval is not None else None
+    muts = [e for e in sh.of("localmut") if isinstance(e.d.get("old"), T.R) and root is not None and q.unmut(e.old) == root]
     # result[:-num] = arr[num:] ; result[-num:] = fill   (num buckets dropped from the front)
     okc = False
     for e in muts:
